@@ -230,6 +230,22 @@ func char(s string, position int) string {
 	return c
 }
 
+// endsOperand tells if the last token so far terminates an operand.
+func endsOperand(tokens []Token) bool {
+	if length := len(tokens); length > 0 {
+		return slices.Contains([]TokenType{
+			IDENTIFIER,
+			NUMBER_LITERAL,
+			STRING_LITERAL,
+			BOOL_LITERAL,
+			NIL_LITERAL,
+			CLOSING_ROUND_BRACKET,
+			CLOSING_SQUARE_BRACKET,
+		}, tokens[length-1].tokenType)
+	}
+	return false
+}
+
 func Tokenize(source string) ([]Token, error) {
 	var err error = nil
 	tokens := []Token{}
@@ -310,8 +326,9 @@ func Tokenize(source string) ([]Token, error) {
 			// Create bool token.
 			token = newToken(match, BOOL_LITERAL, ogRow, ogColumn)
 			i += len(match)
-		} else if match := regexp.MustCompile(`^-?\d+(\.\d+)?`).FindString(source[i:]); match != "" {
-			// Create number token.
+		} else if match := regexp.MustCompile(`^-?\d+(\.\d+)?`).FindString(source[i:]); match != "" && !(strings.HasPrefix(match, "-") && endsOperand(tokens)) {
+			// Create number token. A minus sign directly after an operand is the
+			// binary operator (a-1 is a - 1), not the sign of the literal.
 			token = newToken(match, NUMBER_LITERAL, ogRow, ogColumn)
 			i += len(match)
 		} else if regexp.MustCompile(`[a-zA-Z_]`).MatchString(c0) {
